@@ -14,6 +14,22 @@ ASSUMPTIONS = [
     'the harness resolves GROUP BY / ORDER BY references and allocates aggregate handles itself (independent of the compiler)',
     'grouping keys compare with Python == (1 == 1.0 == TRUE); the first row of a group supplies the key representative',
     'Decimal sums modelled bit-exactly (as_tuple) at precision 28',
+    # translator tie (group `agg`, harness/vf/src_agg.py -> coq/Gen/SrcAgg.v; C02_source_*)
+    'C02_source_*: the PyMini semantics and the primitives of Model/PrimsAgg.v are trusted: the store is a list indexed by '
+    'handle, the dict `aggregates` an insertion-ordered association list keyed by Python == of the key tuple (d[k] = v on '
+    'a present key keeps the stored key and its position), `+` on scalars is Eval.bin BAdd (a TypeError being the error '
+    'value VErr, as in the executor model), an Allocator / aggregator node is the tuple of its attributes and its methods '
+    'are the TRANSLATED method bodies',
+    'C02_source_* aliasing assumptions of the desugaring (src_agg.py A1-A9): protocol methods change their first argument '
+    '(store / allocator) only in place (A1: in-out argument); the aggregate nodes in c_aggregate_exprs are pairwise distinct '
+    'objects changed only through the loop variable (A2); a compiled expression is a function of the context and of the '
+    'state of those nodes only (A3); `store = aggregates[key]` is defaultdict.__missing__ with create() inlined (A4) and '
+    'the list it yields is reachable only through `store` and the dict entry until the end of the block, where it is '
+    'written back; aggregates and key are not rebound in between (A5, checked syntactically)',
+    'C02_source_scan_loop: operands, WHERE and grouping targets are opaque callables whose values are not exceptions (C04); '
+    'the values of a min/max argument column are pairwise comparable (same kind); handle = position in c_aggregate_exprs '
+    '(what the translated allocate loop assigns; the allocate loop, the target split and the output loop are translated '
+    'and re-generated but not yet tied by a theorem)',
 ]
 IMPORTS = ['Base.PyValue', 'Base.Decimal', 'Model.Eval', 'Model.Order', 'Model.Exec']
 
@@ -427,6 +443,17 @@ def typed_table_grouping():
     finally:
         os.unlink(path)
     return n, bad
+
+
+def generate():
+    """translator tie: regenerate coq/Gen/SrcAgg.v (Allocator, the protocol methods of the aggregator classes, the parts
+    of the aggregated branch of execute_select) from the source of the imported code (py2mini, src_agg.py)"""
+    from . import gen_src, src_agg
+    out = dict(gen_src.generate('agg'))
+    out['src_agg_classes'] = list(src_agg.AggGroup.info.get('classes', []))
+    out['src_agg_left_out'] = list(src_agg.AggGroup.info.get('left_out', []))
+    out['src_agg_desugaring_rules_used'] = list(src_agg.AggGroup.info.get('rules_used', []))
+    return out
 
 
 def run(tier, rng):
